@@ -316,6 +316,10 @@ Definition init_world (nodes : list nodecfg) (reqs : list reqcfg) (faults : list
 
 Definition MAX_STEPS : nat := 6000.
 
+(* the events of a run, oldest first, one list per event (the same numbers as in run_spec, not flattened) *)
+Definition run_chunks (nodes : list nodecfg) (reqs : list reqcfg) (faults : list (Z * list Z)) (silence : Z) (injs : list injcfg) : list (list Z) :=
+  rev (w_trace (fst (run MAX_STEPS (init_world nodes reqs faults silence injs)))).
+
 Definition run_spec (nodes : list nodecfg) (reqs : list reqcfg) (faults : list (Z * list Z)) (silence : Z) (injs : list injcfg) : list Z :=
   let '(w, live) := run MAX_STEPS (init_world nodes reqs faults silence injs) in
   let snap := snapshot_of w in
